@@ -3,6 +3,7 @@ CFG = {
     "cmd": "c16",
     "batches": lambda tier, seed: [("hist", "-mode hist -tier %s" % tier),
                                    ("algebra", "-mode algebra -tier %s" % tier),
+                                   ("mixed", "-mode mixed -tier %s" % tier),
                                    ("random", "-mode random -tier %s" % tier),
                                    ("power", "-mode power -tier %s" % tier),
                                    ("free", "-mode free -tier %s" % tier)],
@@ -14,10 +15,10 @@ CFG = {
             "in-place removals) with Union/Intersection/Difference of arity 0..3 (aliased operands included), every live object re-read "
             "after each call, results and operands mutated afterwards and re-read, backing arrays checked for sharing; random: universes "
             "4..120, pools of up to 14 objects, all operations, plus sets of several hundred members grown and shrunk in place; power: Powerset n<=7 / Partitions n<=6 on sets with and without spare "
-            "capacity; free: the same random and power generators under the real (seeded) shuffle, order-independent observables only. "
+            "capacity; mixed: sorted sets with their own comparators in all 25 pairings and in triples, against each other and against the unordered/stable set: Equal/IsSubset/IsSuperset both ways, Union/Intersection/Difference with every receiver, deduplication in a set of sets (a.Equal(b)); free: the same random and power generators under the real (seeded) shuffle, order-independent observables only. "
             "A case is non-trivial when it appends in place into capacity left behind by an earlier in-place removal, or calls "
             "Union/Intersection/Difference, or Powerset/Partitions with n>=2; distinct = distinct (header, op list).",
-    "assumptions": ["all sets in one case share one equality and one comparator consistent with it (Go int; natural or reversed order, results -1/0/1 or of arbitrary magnitude; the model looks only at the sign, as CompareFunc's contract allows)",
+    "assumptions": ["all sets share one equality (Go int); every sorted set has its own comparator (natural or reversed order, results -1/0/1 or of arbitrary magnitude) consistent with it — the theorems quantify over an arbitrary family of strict total orders, one per sorted set; the model looks only at the sign of a comparator result, as CompareFunc's contract allows",
                     "range loops over s.members / All() are modelled as reading the sequence once: in this package the set that is iterated is never the set that the loop body mutates (the mutated set is always a fresh clone); the heap-layer frame theorems show the two readings coincide",
                     "Powerset/Partitions are modelled on set values: every set they create is mutated only before it is stored in another set (by inspection); the per-operation heap-to-value simulation is proved (C16_no_operand_modified, C16_heap_refines_values)",
                     "the fallback branch of the modelled equality closures set_eq/part_eq (a.Equal(b) as a total boolean) is never taken: vequal returns Ok on every pair of values (vequal_total)",
